@@ -40,6 +40,32 @@ def gen_step(rng, g, prev=None, qualify=None):
     return text, mt
 
 
+UNSAT = ['wl_surface.attach(!)', '[!].sync', '[wl_surface ! *].commit', 'wl_surface.commit([!])', 'x.[!]', '[[!]].z', 'wl_callback.done(!)', '[! *].done']
+
+
+def clean(allp):
+    """no constant parts, no connection-prefix ambiguity"""
+    if not all(p['conn'] is not None for p in allp if not joinref.is_any(p)):
+        for p in allp:
+            p['conn'] = None
+    for p in allp:
+        if not joinref.is_any(p) and mref.has_const_true_item(p['args']):
+            p['args'] = None
+            if p['obj'] is None and p['name'] is None:
+                p['name'] = {'w': 'sync'}
+
+
+def gen_unsat(rng, g):
+    """a well-formed command whose only alternative can never match anything (the tool folds it away): it still is a
+    specific alternative, so a pending `*` stops applying; optional ordinary exclusions"""
+    neg = [g.pattern() for _ in range(rng.choice([0, 0, 1, 2]))]
+    clean(neg)
+    text = rng.choice(UNSAT)
+    if neg:
+        text += ' ! ' + ', '.join(mgen.Render().pattern(p) for p in neg)
+    return text, {'pos': [dict(joinref.NEVER)], 'neg': neg}
+
+
 def gen_step_(rng, g, prev=None):
     r = rng.random()
     if prev and rng.random() < 0.15:
@@ -68,16 +94,7 @@ def gen_step_(rng, g, prev=None):
     mt = {'pos': [g.pattern() for _ in range(npos)], 'neg': [g.pattern() for _ in range(nneg)]}
     if 0.4 <= r < 0.47:
         mt['pos'] = [dict(mgen.ANY)] + (mt['pos'] if rng.random() < 0.5 else [])
-    # no constant parts, no connection-prefix ambiguity
-    allp = mt['pos'] + mt['neg']
-    if not all(p['conn'] is not None for p in allp if not joinref.is_any(p)):
-        for p in allp:
-            p['conn'] = None
-    for p in allp:
-        if not joinref.is_any(p) and mref.has_const_true_item(p['args']):
-            p['args'] = None
-            if p['obj'] is None and p['name'] is None:
-                p['name'] = {'w': 'sync'}
+    clean(mt['pos'] + mt['neg'])
     style = rng.random()
     text = mgen.Render(rng, ws=0.3 if style < 0.3 else 0.0, br=0.2 if 0.3 <= style < 0.5 else 0.0).matcher(mt)
     return text, mt
@@ -144,11 +161,22 @@ def run_sequence(ctx, rng, g, lines, projs):
     interesting = 0
     wellformed = 0
     prev = {'filter': [], 'breakpoint': []}
-    for step in range(rng.randint(1, 12)):
+    nsteps = rng.randint(1, 12)
+    unsat_last = rng.random() < 0.3
+    for step in range(nsteps):
         kind = rng.choice(['filter', 'filter', 'breakpoint'])
-        text, ast = gen_step(rng, g, prev[kind], qualify)
-        if ast is not None:
-            prev[kind].append(ast)
+        if unsat_last and step == nsteps - 1:
+            # last step: an alternative nothing can match (the model does not follow the tool's folding to `!` any further)
+            pending = [k for k in ('filter', 'breakpoint') if states[k][0] == 'acc' and states[k][3]]
+            if pending and rng.random() < 0.8:
+                kind = rng.choice(pending)
+            text, ast = gen_unsat(rng, g)
+            ctx.count('unsatisfiable_steps')
+            ctx.setadd('unsatisfiable_after', states[kind][0] + (':star' if states[kind][0] == 'acc' and states[kind][3] else ''))
+        else:
+            text, ast = gen_step(rng, g, prev[kind], qualify)
+            if ast is not None:
+                prev[kind].append(ast)
         spelled = rng.choice({'filter': ['filter', 'f', 'wlf', 'wl filter', 'fil'], 'breakpoint': ['breakpoint', 'b', 'wlb', 'w b', 'break']}[kind])
         cmd = spelled + ' ' + text
         cmds.append(cmd)
